@@ -3,7 +3,7 @@
 From Coq Require Import List NArith ZArith Bool FMapPositive.
 From Coq Require Extraction ExtrOcamlBasic.
 Require Import FlexV.Regex FlexV.SpecAuto FlexV.Lockstep FlexV.Pat FlexV.Tables FlexV.Scan
-               FlexV.C01Proofs FlexV.Tokenize FlexV.GenOptions FlexV.RScan FlexV.C07Proofs FlexV.RejectTok FlexV.GenParse FlexV.Stream FlexV.Window FlexV.Warn FlexV.Codec FlexV.Buffers FlexV.Ledger FlexV.Faults FlexV.M4Quote FlexV.BufLayout FlexV.StreamProofs FlexV.Conservation FlexV.Unput FlexV.EolTable FlexV.StackGrow FlexV.NfaSim.
+               FlexV.C01Proofs FlexV.Tokenize FlexV.GenOptions FlexV.RScan FlexV.C07Proofs FlexV.RejectTok FlexV.GenParse FlexV.Stream FlexV.Window FlexV.Warn FlexV.Codec FlexV.Buffers FlexV.Ledger FlexV.Faults FlexV.M4Quote FlexV.BufLayout FlexV.StreamProofs FlexV.Conservation FlexV.Unput FlexV.EolTable FlexV.StackGrow FlexV.NfaSim FlexV.EofAssign.
 Extraction Language OCaml.
 Extraction "flexv.ml"
   matchb denote rule_re spec_start sstep seqb sobs sdead
@@ -11,6 +11,6 @@ Extraction "flexv.ml"
   ok check_view alphabet lk scan spec_scan
   validate spec_tokens view_tokens bol_after
   GenOptions.model GenOptions.all_optsets
-  view_tokens_tc rview raccl ok_r check_rview spec_start_r spec_rej_tokens view_rej_tokens view_rej_tokens_tc rej_validate view_rtokens_tc ralts rule_kind sm_run sm_init wtokens sm_sessions validate_o closed_check not_first not_among dec_file dec_set_header dec_tables enc_table enc_set brun binit ledger_ok fault_events delivered m4 escape QS_A QE_A QS_B QE_B wrap requests run_ok unread unputs u_unread spec_rej_tokens_ln eol_ok can_nl nl_word head_re rule_re StackGrow.trace bs_init nview nacc members set_of wf_nfa dview ec_consistent ec_rep
+  view_tokens_tc rview raccl ok_r check_rview spec_start_r spec_rej_tokens view_rej_tokens view_rej_tokens_tc rej_validate view_rtokens_tc ralts rule_kind sm_run sm_init wtokens sm_sessions validate_o closed_check not_first not_among dec_file dec_set_header dec_tables enc_table enc_set brun binit ledger_ok fault_events delivered m4 escape QS_A QE_A QS_B QE_B wrap requests run_ok unread unputs u_unread spec_rej_tokens_ln eol_ok can_nl nl_word head_re rule_re StackGrow.trace bs_init nview nacc members set_of wf_nfa dview ec_consistent ec_rep eof_assign
   PositiveMap.empty PositiveMap.add PositiveMap.find PositiveMap.elements
   N.of_nat N.to_nat Z.of_nat Z.of_N Z.to_N.
